@@ -114,6 +114,22 @@ func hashOf(v any) string {
 	return hex.EncodeToString(s[:8])
 }
 
+// NewDetachedRecorder is a recorder for helper processes (never written).
+func NewDetachedRecorder(id string) *Recorder {
+	return &Recorder{ID: id, Test: "helper", start: time.Now(), nt: map[string]struct{}{}, classes: map[string]int{}, excluded: map[string]int{}, extra: map[string]any{}, known: map[string]bool{}}
+}
+
+// Classes returns a copy of the class counters (helpers report them back to the parent test).
+func (r *Recorder) Classes() map[string]int {
+	r.mu.Lock()
+	defer r.mu.Unlock()
+	m := map[string]int{}
+	for k, v := range r.classes {
+		m[k] = v
+	}
+	return m
+}
+
 // Case records one evaluated case. key identifies the case for distinctness (any JSON-able value);
 // nontrivial says whether it satisfies the property's non-triviality rule.
 func (r *Recorder) Case(key any, nontrivial bool, classes ...string) {
